@@ -37,7 +37,7 @@ def long_history_worlds(tier, seed):
     s = 1 + seed % 1000
     out = []
     for k, (eng, ke) in enumerate([(("SEA",), 0), (("LHS", "CMAf"), 1), (("SEA", "DE"), 1), (("MWEA",), 2)]):
-        out.append(dict(engines=list(eng), gens=20, pop=6, obj=("twofunnel", "sphere_in")[k % 2], maximize=bool(k % 2), Mh=28 if tier == "thorough" or k < 2 else 6, seed=s + k, kelites=ke,
+        out.append(dict(engines=list(eng), gens=20, pop=6, obj=("twofunnel", "sphere_in")[k % 2], maximize=bool(k % 2), Mh=60 if k < 2 else (28 if tier == "thorough" else 6), seed=s + k, kelites=ke,
                         sprout={"kind": "simple", "L": 1}, lsc=[None] * len(eng), scale="history"))
     return out
 
